@@ -192,6 +192,15 @@ func librarySinks() []sinkT {
 	s = append(s, decoderSinks[oidc.DiscoveryConfiguration]("DiscoveryConfiguration")...)
 	s = append(s, decoderSinks[oidc.Error]("Error")...)
 	s = append(s, decoderSinks[client.KeyFile]("KeyFile")...)
+	s = append(s, sinkT{name: "decode/JWTProfileKeyFileData", family: "decode",
+		doc: docType{name: "keyfile", members: []member{{"type", `"serviceaccount"`}, {"keyId", `"k"`}, {"key", `"-----BEGIN"`}, {"userId", `"u"`}, {"x-custom", `1`}}},
+		run: func(doc []byte) string {
+			v, err := oidc.NewJWTProfileAssertionFromFileData(doc, []string{docIssuer})
+			if err == nil && v != nil {
+				exercise(v)
+			}
+			return errOutcome(err, err == nil && v == nil)
+		}})
 
 	s = append(s, verifierSinks("rp.VerifyIDToken", &oidc.IDTokenClaims{}, func(ctx context.Context, tok string) (*oidc.IDTokenClaims, error) {
 		return rp.VerifyIDToken[*oidc.IDTokenClaims](ctx, tok, rpV)
